@@ -107,6 +107,8 @@ def zoo_task(names):
                                 break
                             err = ((a.double() - b).abs() / (1.0 + b.abs())).max().item()
                             tol = 2e-4 if what != "outputs" else 1e-4
+                            if e.has("large"):
+                                tol = 2e-3  # 64 x 64 solves
                             if "Cubic" in name or "Quadratic" in name or mode == "train":
                                 tol = 2e-3  # polynomial root finding / division by a small batch std
                             if err > tol:
